@@ -883,4 +883,100 @@ example : tablesStd = true →
     (m.step (.on 1 (.seg three))).clients.map (·.srv.pipe.reqIndex) = [3, 2, 0] ∧ (m.step (.on 1 (.seg three))).state = .inited := by
   decide +kernel
 
+/-! ### the listen backlog (tcp_acceptor.cpp, tcp_server.cpp)
+
+`TcpAcceptor::stop()` disables the read event of the listening socket and nothing else: clients keep connecting into the
+kernel's backlog (`MOp.connq`, counted in `pending`) — before the first `start()`, while the server is stopped, and from
+inside a handler that stops the server. `start()` accepts them in the order they connected; `cleanup()` closes the listening
+socket, whoever waits is reset. -/
+
+/-- C12_multi_backlog_held: while the server is not running NOBODY is accepted, whatever happens — clients connecting,
+events and late completions of the torn-down connections, `stop()` / `cleanup()` again — until `start()`. -/
+theorem C12_multi_backlog_held (m : MServer) (op : MOp) (hs : m.state ≠ .running) (hop : op ≠ .start) :
+    (m.step op).clients.length = m.clients.length := by
+  cases op with
+  | conn => simp [MServer.step, hs]
+  | connq =>
+    simp only [MServer.step]
+    split
+    · rfl
+    · split <;> rfl
+  | start => exact absurd rfl hop
+  | stop cl =>
+    simp only [MServer.step]
+    split
+    · rfl
+    · simp only [MServer.stopOutside, hs, if_false]
+      split <;> rfl
+  | wq q =>
+    simp only [MServer.step]
+    split <;> rfl
+  | on c o => exact on_length m c o
+
+/-- C12_multi_backlog_queue: a client that connects while the server is stopped (or not started yet) waits in the backlog;
+after `cleanup()` it is refused; `stop()` keeps the backlog, `cleanup()` empties it. -/
+theorem C12_multi_backlog_queue (m : MServer) (hp : m.poisoned = false) :
+    (m.state = .inited → (m.step .connq).pending = m.pending + 1 ∧ (m.step .connq).clients = m.clients ∧ (m.step .connq).state = .inited) ∧
+    (m.state = .none → m.step .connq = m) ∧
+    (m.step (.stop true)).pending = 0 ∧ (m.step (.stop true)).state = .none ∧
+    (m.step (.stop false)).pending = m.pending := by
+  refine ⟨fun hs => by simp [MServer.step, hp, hs], fun hs => by simp [MServer.step, hp, hs], ?_, ?_, ?_⟩
+  · simp only [MServer.step, hp, Bool.false_eq_true, if_false, MServer.stopOutside]
+    split
+    · simp [MServer.stopAll]
+    · simp
+  · simp only [MServer.step, hp, Bool.false_eq_true, if_false, MServer.stopOutside]
+    split
+    · simp [MServer.stopAll]
+    · simp
+  · simp only [MServer.step, hp, Bool.false_eq_true, if_false, MServer.stopOutside]
+    split
+    · simp [MServer.stopAll]
+    · simp
+
+/-- C12_multi_backlog_start: `start()` on a stopped server accepts exactly the `pending` clients of the backlog: their
+records are appended in order behind the existing ones (which are untouched), each one fresh — empty history, pristine
+pipeline, nothing outstanding — and the backlog is empty afterwards. Their tokens resolve to themselves and never to a
+torn-down connection whose cabinet cell they take over (C12_multi_token_own covers every reachable state). -/
+theorem C12_multi_backlog_start (m : MServer) (hp : m.poisoned = false) (hs : m.state = .inited) :
+    ∃ new : List Client, (m.step .start).clients = m.clients ++ new ∧ new.length = m.pending ∧
+      (∀ x ∈ new, x.srv.hist = [] ∧ x.srv.pipe = {} ∧ x.srv.outstanding = []) ∧
+      (m.step .start).state = .running ∧ (m.step .start).pending = 0 := by
+  have h : m.step .start = MServer.acceptN m.pending { m with state := .running, pending := 0 } := by
+    simp [MServer.step, hp, hs]
+  obtain ⟨new, h1, h2, h3, h4, h5, _⟩ := acceptN_spec m.pending { m with state := .running, pending := 0 }
+  exact ⟨new, by rw [h, h1], h2, h3, by rw [h, h4], by rw [h, h5]⟩
+
+/-- non-vacuity: connection 0 has a Context held when the server is stopped; two clients connect meanwhile; after `start()`
+they are connections 1 and 2 (connection 1 in the cabinet cell connection 0 had, with a larger id); the late Context of
+connection 0 reaches nobody, connection 1's own request is answered on connection 1 -/
+example : tablesStd = true →
+    let one := ascii "GET /0 HTTP/1.1\r\nContent-Length: 0\r\n\r\n"
+    let m0 := MServer.run {} [.conn, .on 0 (.seg one), .stop false, .connq, .connq]
+    let m := MServer.run m0 [.start, .on 1 (.seg one), .on 0 (.done 0 { status := 200, body := [88] }), .on 1 (.done 0 { status := 200, body := [89] })]
+    m0.poisoned = false ∧ m0.state = .inited ∧ m0.pending = 2 ∧ m0.clients.length = 1 ∧
+    m.clients.map (·.tok) = [⟨1, 0⟩, ⟨2, 0⟩, ⟨3, 1⟩] ∧ m.pending = 0 ∧
+    m.clients.map (·.srv.pipe.written.length) = [0, 1, 0] := by
+  decide +kernel
+
+/-- C12_multi_close_commit: a handler that completes in the very loop pass in which the peer closes the connection (before or
+after the close is seen) commits through the cabinet like any other: when the connection is already gone — torn down by
+`stop()`, a closing request, a fault — the response reaches NO connection, in particular not the one that took over the
+cabinet cell. -/
+theorem C12_multi_close_commit (ops : List MOp) (c i : Nat) (r : Respond) (cf : Bool) (cl : Client)
+    (hc : (MServer.run {} ops).clients[c]? = some cl) (hgone : cl.srv.pipe.valid = false) (d : Nat) :
+    (((MServer.run {} ops).step (.on c (.cclose (some (i, r)) cf))).clients[d]?).map (·.srv.pipe.written) =
+      ((MServer.run {} ops).clients[d]?).map (·.srv.pipe.written) :=
+  close_commit_gone (run_minv ops minv_init) c i r cf cl hc hgone d
+
+/-- non-vacuity: connection 0 is torn down by `stop()` with a Context held; after `start()` connection 1 takes its cell;
+the Context of connection 0 completes while its client closes: connection 1 gets nothing -/
+example : tablesStd = true →
+    let one := ascii "GET /0 HTTP/1.1\r\nContent-Length: 0\r\n\r\n"
+    let m := MServer.run {} [.conn, .on 0 (.seg one), .stop false, .start, .conn, .on 1 (.seg one)]
+    m.clients.map (·.srv.pipe.valid) = [false, true] ∧ m.clients.map (·.tok.pos) = [0, 0] ∧
+    (m.step (.on 0 (.cclose (some (0, { status := 200, body := [88] })) false))).clients.map (·.srv.pipe.written) = [[], []] ∧
+    (m.step (.on 0 (.cclose (some (0, { status := 200, body := [88] })) true))).clients.map (·.srv.outstanding) = [[], [0]] := by
+  decide +kernel
+
 end Tbox.C12
